@@ -32,7 +32,7 @@ def NUM(r):
 
 
 def POS(r):
-    return r.choice([D('1'), D('2.50'), D('0.01'), D('1234567.89')])
+    return r.choice([D('1'), D('2.50'), D('0.01'), D('1234567.89'), D('0'), D('0.00')])
 
 
 def DATE(r):
